@@ -141,8 +141,7 @@ def classResToJson (r : R FieldDecl) : Json :=
   | .error e => Json.mkObj [("err", Json.str (errName e))]
   | .ok d => Json.mkObj [("ok", declToJson d)]
 
-def run (j : Json) : Except String Json := do
-  let O ← oraclesOfJson j
+def runVariant (O : Oracles) (j : Json) : Except String Json := do
   let future ← optBool j "future" false
   let fields ← (← (← j.getObjVal? "fields").getArr?).toList.mapM fieldSpOfJson
   let tm := Pinned.typeMap
@@ -156,5 +155,11 @@ def run (j : Json) : Except String Json := do
   pure (Json.mkObj [("cls", classResToJson (elabClass O tm c)),
                     ("fields", Json.arr perField.toArray),
                     ("supported", Json.bool (classSupported O tm c))])
+
+/-- one case = several spellings (variants) of the same class body -/
+def run (j : Json) : Except String Json := do
+  let O ← oraclesOfJson j
+  let vs ← (← (← j.getObjVal? "variants").getArr?).toList.mapM (runVariant O)
+  pure (Json.mkObj [("variants", Json.arr vs.toArray)])
 
 end Typedpy.Drive.Elab
